@@ -46,22 +46,26 @@ void exec_tasks(const J& plan) {
   // --- solo: each task alone, on the main thread, before any other thread exists
   std::vector<uint64_t> solo(n);
   g_task_mode = true;
+  // hidden mutable global state is hidden mutable global state whether or not a second thread is there to trip over it:
+  // the library's own data segment is write-protected from before the first task runs alone (a lazily initialised
+  // static table would otherwise be filled during the solo pass and never be written again)
+  bool prot = plan.at("knobs").getu("protect", 1) && prot_lib_available();
+  prot_set_ctx("task running alone (C17 solo pass)");
+  if (prot) prot_lib_statics(true);
   for (size_t i = 0; i < n && !failed(); i++) {
     sa_reset(ak); g_logs[0].reset();
     run_body(jt[i]);
     solo[i] = g_logs[0].digest;
     if (sa_live_count() != 0 && !failed()) fail("C17", "solo-task-leaves-memory", fmt("task %zu alone left %llu block(s)", i + 1, (unsigned long long)sa_live_count()));
   }
-  if (failed() || g_run.foreign_seen) { g_task_mode = false; return; }
+  if (failed() || g_run.foreign_seen) { g_task_mode = false; if (prot) prot_lib_statics(false); return; }
   // --- interleaved
   sa_reset(ak); for (int li = 0; li <= SA_MAX_TASKS; li++) g_logs[li].reset();
   std::vector<std::function<void()>> bodies;
   for (size_t i = 0; i < n; i++) bodies.push_back([&jt, i]() { sched_point(SP_API); run_body(jt[i]); });
   SchedConfig cfg; cfg.stack_bytes = (size_t)kn.getu("stack", 1 << 20); cfg.preempt_permille = (unsigned)kn.getu("preempt", 500); cfg.rng_seed = plan.getu("sched_seed");
   for (size_t i = 0; i < plan.at("sched").size(); i++) cfg.choices.push_back((uint32_t)plan.at("sched").iu(i));
-  bool prot = kn.getu("protect", 1) && prot_lib_available();
   prot_set_ctx("interleaved tasks (C17)");
-  if (prot) prot_lib_statics(true);
   SchedResult sr = sched_run(cfg, bodies);
   if (prot) prot_lib_statics(false);
   g_task_mode = false;
